@@ -368,9 +368,8 @@ Proof. rewrite worse_spec. cbn. lia. Qed.
 (* statuses produced by eval_partition are partition statuses *)
 Lemma calc_status_some_range offs brokers cur now allowed : part_status_ok (calc_status_some offs brokers cur now allowed).
 Proof.
-  unfold calc_status_some, part_status_ok.
-  repeat match goal with |- context [if ?b then _ else _] => destruct b end; auto;
-  destruct (rewind_index offs); repeat match goal with |- context [if ?b then _ else _] => destruct b end; auto 10.
+  unfold calc_status_some, lag_rules, part_status_ok.
+  repeat match goal with |- context [if ?b then _ else _] => destruct b end; auto 10.
 Qed.
 
 Lemma eval_partition_range p minimum allowed now s st en c :
